@@ -58,9 +58,6 @@ class _h1:
         # F19b: is_consecutive() compares with np.allclose: bins whose edges differ by less than the tolerance are
         # treated as consecutive, a value in the micro-gap is counted nowhere while under/overflow read as numbers
         "underflow_overflow_account_for_the_rest": [("F19b", lambda o: micro_gap(bins_of(o.bins)))],
-        # F24: NaN under/overflow markers cannot be stored for an integer dtype -> ValueError
-        "raise:ValueError": [("F24", lambda o: And(Not(exactly_consecutive(bins_of(o.bins))),
-                                                   not (hasattr(o, "weights") and dtype_of(o.weights).kind == "f")))],
     }
 
     @ensures("each_bin_holds_weight_of_its_values")
